@@ -89,6 +89,7 @@ type execution struct {
 	resp     *remoteexecution.ExecuteResponse
 	respCopy *remoteexecution.ExecuteResponse
 	failed   bool
+	stale    int
 }
 
 type fakeTimer struct {
@@ -117,20 +118,24 @@ type env struct {
 	timer *fakeTimer
 
 	// Where the worker thread is.
-	started, done, atHook      bool
-	inSelect, expectBackoff    bool
-	runBoundary, termBefore    bool
-	now1Pending, mustExit      bool
-	swapped, overWait          bool
-	syncCount, readyFails      int
-	jumps                      int
-	reqLog                     []string
-	sentExec                   []*remoteworker.DesiredState_Executing
-	lastReqKind                int
+	started, done, atHook   bool
+	inSelect, expectBackoff bool
+	runBoundary, termBefore bool
+	now1Pending, mustExit   bool
+	swapped, overWait       bool
+	syncCount, readyFails   int
+	jumps                   int
+	reqLog                  []string
+	sentExec                []*remoteworker.DesiredState_Executing
+	lastReqKind             int
 
 	// Reference model of what the scheduler may believe.
 	mayThink bool
-	d, n     time.Duration
+	// certainIdle: the scheduler explicitly ordered idle, or desired nothing
+	// while the worker reported idle. Only then is termination demanded.
+	certainIdle bool
+	exitNote    string
+	d, n        time.Duration
 
 	// Monitor state.
 	needReadiness bool
@@ -143,7 +148,7 @@ type env struct {
 }
 
 func newEnv(x *mc.X, c config) *env {
-	e := &env{x: x, cfg: c, shutdownCh: make(chan struct{}), runBoundary: true}
+	e := &env{x: x, cfg: c, shutdownCh: make(chan struct{}), runBoundary: true, certainIdle: true}
 	e.ctx, e.cancel = context.WithCancel(context.Background())
 	return e
 }
@@ -217,7 +222,7 @@ func (e *env) enter(call string) {
 		e.runBoundary = false
 		e.termBefore = e.shutdown
 		e.swapped = false
-		if e.shutdown && !e.mayThink {
+		if e.shutdown && !e.mayThink && e.certainIdle {
 			e.fail("noexit/idle", "shutdown began and the last exchange left the scheduler unable to believe the worker is executing, but the worker thread called %s instead of terminating (requests so far: %v)", call, e.reqLog)
 		}
 		if e.shutdown && e.mayThink && call == "Now" {
@@ -320,7 +325,7 @@ func (f fakeExecutor) Execute(ctx context.Context, filePool pool.FilePool, monit
 	}
 	known := false
 	for _, r := range e.sentExec {
-		if r == request {
+		if r == request || proto.Equal(r, request) {
 			known = true
 		}
 	}
@@ -330,6 +335,7 @@ func (f fakeExecutor) Execute(ctx context.Context, filePool pool.FilePool, monit
 	e.execs = append(e.execs, ex)
 	e.mu.Unlock()
 	e.flush()
+	e.x.Logf("Execute #%d (a%d) entered", ex.ord, ex.dig)
 	for {
 		c := <-ex.cmd
 		switch c {
@@ -350,7 +356,11 @@ func (f fakeExecutor) Execute(ctx context.Context, filePool pool.FilePool, monit
 				Message: fmt.Sprintf("execution #%d of a%d", ex.ord, ex.dig),
 			}
 			if c == cmdFail {
-				resp.Status = status.New(codes.Internal, "runner crashed").Proto()
+				code := []codes.Code{codes.Internal, codes.Unavailable, codes.DeadlineExceeded}[ex.ord%3]
+				if ctx.Err() != nil {
+					code = codes.Canceled
+				}
+				resp.Status = status.New(code, "runner failed").Proto()
 			}
 			e.mu.Lock()
 			ex.resp = resp
@@ -358,6 +368,7 @@ func (f fakeExecutor) Execute(ctx context.Context, filePool pool.FilePool, monit
 			ex.failed = c == cmdFail
 			ex.active = false
 			e.mu.Unlock()
+			e.x.Logf("Execute #%d (a%d) returns %q failed=%v (ctx cancelled: %v)", ex.ord, ex.dig, resp.Message, ex.failed, ctx.Err() != nil)
 			return resp
 		}
 	}
@@ -375,17 +386,14 @@ func (g fakeGroup) Go(routine program.Routine) {
 		e.started = true
 		e.mu.Unlock()
 		err := routine(e.ctx, g, g)
+		e.x.Logf("worker thread returned (err=%v)", err)
 		e.mu.Lock()
 		e.done = true
 		e.inSelect = false
 		e.expectBackoff = false
-		if err != nil {
-			e.fail("exit/error", "worker thread returned error %v", err)
-		}
-		if !e.shutdown {
-			e.fail("exit/without-shutdown", "worker thread terminated although shutdown never began")
-		} else if e.mayThink && !(e.now > e.d) {
-			e.fail("exit/scheduler-may-think-executing", "worker thread terminated at clock %v although the last exchange (%v) left the scheduler able to believe it is executing until %v", e.now, e.reqLog, e.d)
+		e.exitNote = fmt.Sprintf("exit(err=%v,shutdown=%v)", err, e.shutdown)
+		if e.mayThink && !(e.now > e.d) {
+			e.fail("exit/scheduler-may-think-executing", "worker thread terminated at clock %v (shutdown begun: %v) although the last exchange (%v) left the scheduler able to believe it is executing until %v", e.now, e.shutdown, e.reqLog, e.d)
 		}
 		e.mu.Unlock()
 		e.flush()
@@ -448,7 +456,7 @@ func progressIndex(c *execution, ex *remoteworker.CurrentState_Executing) int {
 	}
 	if c != nil {
 		for i, u := range c.sent {
-			if u == ex {
+			if u == ex || proto.Equal(u, ex) {
 				return i + 1
 			}
 		}
@@ -490,6 +498,15 @@ func (s fakeScheduler) Synchronize(ctx context.Context, in *remoteworker.Synchro
 			e.fail("dishonest/executing-wrong-action", "request #%d reports Executing(a%d) but the most recently started executor is %s", count, digestID(ex.ActionDigest), descExec(c))
 		} else if progressIndex(c, ex) < 0 {
 			e.fail("dishonest/unknown-progress", "request #%d reports an execution state for a%d that executor #%d never published", count, c.dig, c.ord)
+		} else if !c.active {
+			// The executor returned before this request was built. One
+			// such report is tolerated (the client may not have looked
+			// at the update channel yet), a second one means that the
+			// completion is not being reported.
+			c.stale++
+			if c.stale > 1 {
+				e.fail("dishonest/completion-not-reported", "request #%d is the second one that reports a%d as still executing after executor #%d returned", count, c.dig, c.ord)
+			}
 		}
 	case kDone:
 		r := ex.ExecutionState.(*remoteworker.CurrentState_Executing_Completed).Completed
@@ -503,7 +520,7 @@ func (s fakeScheduler) Synchronize(ctx context.Context, in *remoteworker.Synchro
 			e.fail("dishonest/completed-but-not-returned", "request #%d reports Completed(a%d) but the most recently started executor is %s", count, digestID(ex.ActionDigest), descExec(c))
 		case c.dig != digestID(ex.ActionDigest) || !proto.Equal(c.req.ActionDigest, ex.ActionDigest):
 			e.fail("dishonest/completed-wrong-action", "request #%d reports Completed(a%d) but the executor that just finished is %s", count, digestID(ex.ActionDigest), descExec(c))
-		case r != c.resp || !proto.Equal(r, c.respCopy):
+		case !proto.Equal(r, c.respCopy):
 			e.fail("dishonest/completed-wrong-response", "request #%d reports Completed(a%d) with response %q, but executor #%d returned %q", count, c.dig, r.GetMessage(), c.ord, c.respCopy.GetMessage())
 		}
 		if failed && !pbi {
@@ -546,6 +563,7 @@ func (s fakeScheduler) Synchronize(ctx context.Context, in *remoteworker.Synchro
 		e.mayThink = true
 		e.d = e.n + grace
 	}
+	e.certainIdle = false
 	// Reply menu.
 	var menu []reply
 	if count <= e.cfg.budget {
@@ -599,6 +617,7 @@ func (s fakeScheduler) Synchronize(ctx context.Context, in *remoteworker.Synchro
 	tag := fmt.Sprintf("%s/%v/%v", desc, e.termBefore, e.swapped)
 	e.mu.Unlock()
 	e.flush()
+	e.x.Logf("Synchronize #%d: request %s (ctx cancelled: %v), executors: %s", count, desc, ctx.Err() != nil, e.descExecs())
 
 	var r reply
 	if over {
@@ -635,6 +654,7 @@ func (s fakeScheduler) Synchronize(ctx context.Context, in *remoteworker.Synchro
 	defer e.mu.Unlock()
 	e.runBoundary = true
 	e.reqLog[len(e.reqLog)-1] += ">" + replyNames[r]
+	e.x.Logf("Synchronize #%d: reply %s", count, replyNames[r])
 	next := timestamppb.New(e.abs(e.now + syncInterval))
 	newExec := func(dig int, fn remoteexecution.DigestFunction_Value) *remoteworker.DesiredState {
 		req := &remoteworker.DesiredState_Executing{
@@ -684,11 +704,13 @@ func (s fakeScheduler) Synchronize(ctx context.Context, in *remoteworker.Synchro
 			e.d = e.n + grace
 		} else {
 			e.mayThink = false
+			e.certainIdle = kind == kIdle
 		}
 		return &remoteworker.SynchronizeResponse{NextSynchronizationAt: next}, nil
 	case rIdle:
 		e.n = e.now + syncInterval
 		e.mayThink = false
+		e.certainIdle = true
 		e.wantIdle = true
 		return &remoteworker.SynchronizeResponse{
 			NextSynchronizationAt: next,
@@ -729,4 +751,16 @@ func descExec(c *execution) string {
 		st = "running"
 	}
 	return fmt.Sprintf("#%d for a%d (%s)", c.ord, c.dig, st)
+}
+
+func (e *env) descExecs() string {
+	e.mu.Lock()
+	defer e.mu.Unlock()
+	var l []string
+	for _, o := range e.execs {
+		if o.active || o == e.cur() {
+			l = append(l, descExec(o))
+		}
+	}
+	return "[" + strings.Join(l, ", ") + "]"
 }
